@@ -38,6 +38,9 @@ def fbool(value):
 
 def fboolorfloat(value):
     """Bool or float"""
+    if isinstance(value, str) and value.lower() not in ["true", "false"]:
+        # numbers given as text (e.g. in configuration files)
+        value = float(value)
     if isinstance(value, (str, bool, np.bool_)) or value == 0:
         return fbool(value)
     elif isinstance(value, numbers.Number):
